@@ -15,7 +15,11 @@ PKG = "vcr/verifier"
 HARNESS = ["vcr/verifier/zz_verif_c01_test.go"]
 PKG2 = "vcr/test"
 HARNESS2 = ["vcr/test/zz_verif_c01s_test.go"]
-HARNESSES = [(PKG, HARNESS, "c01"), (PKG2, HARNESS2, "c01s")]
+PKG3 = "vcr/credential"
+HARNESS3 = ["vcr/credential/zz_verif_c01v_test.go"]
+HARNESSES = [(PKG, HARNESS, "c01"), (PKG2, HARNESS2, "c01s"), (PKG3, HARNESS3, "c01v")]
+V_OPS = ("rune-tables", "validate", "pres-dates", "filter-method", "autocorrect")
+GO_SPACE = set([9, 10, 11, 12, 13, 0x20, 0x85, 0xA0, 0x1680, 0x2028, 0x2029, 0x202F, 0x205F, 0x3000] + list(range(0x2000, 0x200B)))
 
 REQUIRED = ["check_order_irrelevant_for_accept", "valid_only_if", "key_is_from_the_issuers_document",
             "vp_valid_only_if", "vp_every_other_credential_is_signature_checked", "fact_check_signature_flag_is_per_credential", "untrust_is_effective", "untrusted_issuer_is_rejected", "fact_trust_store_code", "fact_wiring", "fact_key_lookup_relationship_is_constant", "proof_purpose_does_not_select_the_relationship", "fact_store_credential_always_verifies_the_signature", "stored_credentials_were_signature_checked", "resolve_reports_only_signature_checked", "fact_verifier_is_stateless", "fact_strict_mode_fixes_the_contexts", "fact_key_lookup_iterates_the_relationship", "fact_status_list_renewal_loads_revocations", "fact_status_list_refresh_replaces_all_columns", "api_vc_valid_only_if", "wallet_lists_only_current_unrevoked", "wallet_validate_ok", "vp_check_order_irrelevant_for_accept", "empty_presentation_holder_is_not_checked",
@@ -23,7 +27,15 @@ REQUIRED = ["check_order_irrelevant_for_accept", "valid_only_if", "key_is_from_t
             "own_output_verifies_ld", "own_output_verifies_jwt", "own_presentation_verifies",
             "fact_verify_check_sequence", "fact_doVerifyVP_check_sequence", "fact_jsonldProof_check_sequence",
             "fact_jwtSignature_check_sequence", "fact_parseJWT_check_sequence", "fact_validator_selection", "fact_issue_sequence",
-            "fact_model_checks_are_the_source_checks", "fact_max_skew", "fact_supported_algs"]
+            "fact_model_checks_are_the_source_checks", "fact_max_skew", "fact_supported_algs",
+            # deepening round 2026-09-28 (Props/C01Subject.lean)
+            "validateResources_iff", "validateResources_append", "accepted_authorization_credential_is_well_formed",
+            "accepted_organization_credential_is_well_formed", "other_types_subject_is_not_validated",
+            "presentation_dates_are_signed_members", "verified_presentation_dates_contain_validation_time",
+            "filterOnDIDMethod_sublist", "filterOnDIDMethod_spec", "autoCorrect_leaves_signed_unchanged", "autoCorrect_only_fills_gaps",
+            "autoCorrect_attributes_to_requester", "fact_valid_operation_types", "fact_subject_and_util_control_flow",
+            "presentation_with_foreign_credential_is_rejected", "revocation_store_fault_is_never_valid",
+            "revocation_store_fault_is_never_valid_vp", "fact_revocation_store_read_errors"]
 
 SCAN_KINDS = ("time", "flags", "trust", "revoked")
 PROOF_OPTS = ("shape", "typ", "vm", "purpose", "created", "expires", "domain", "challenge", "nonce")
@@ -96,10 +108,221 @@ def norm_path(p):
     return p
 
 
+def go_blank(x):
+    return isinstance(x, str) and all(ord(ch) in GO_SPACE for ch in x)
+
+
+def go_lower(x):
+    return "".join("i" if ch == "\u0130" else "k" if ch == "\u212a" else (ch.lower() if len(ch.lower()) == 1 else ch) for ch in x)
+
+
+def go_member(d, k):
+    """encoding/json: exact member name first, else case-insensitive"""
+    if k in d:
+        return d[k]
+    for kk, v in d.items():
+        if kk.lower() == k.lower():
+            return v
+    return None
+
+
+def subject_defects(text, kind, valid_ops):
+    """what the property's reader expects of an ACCEPTED Nuts credential, recomputed from the raw document text"""
+    doc = json.loads(text)
+    cs = doc.get("credentialSubject")
+    cs = [cs] if isinstance(cs, dict) else cs
+    if not isinstance(cs, list) or len(cs) != 1 or not isinstance(cs[0], dict):
+        return ["not-exactly-one-subject"]
+    sub = cs[0]
+    why = []
+    sid = go_member(sub, "id")
+    if not isinstance(sid, str) or go_blank(sid) or not re.match(r"^did:[a-z0-9]+:.+", sid):
+        why.append("subject-id-not-a-did")
+    if kind == "auth":
+        pu = go_member(sub, "purposeOfUse")
+        if not isinstance(pu, str) or go_blank(pu):
+            why.append("purposeOfUse-blank")
+        rs = go_member(sub, "resources")
+        for k, r in enumerate(rs if isinstance(rs, list) else []):
+            if not isinstance(r, dict):
+                why.append(f"resource-{k}-not-an-object")
+                continue
+            pa, opl = go_member(r, "path"), go_member(r, "operations")
+            if not isinstance(pa, str) or go_blank(pa):
+                why.append(f"resource-{k}-of-{len(rs)}-path-blank")
+            if not isinstance(opl, list) or not opl:
+                why.append(f"resource-{k}-of-{len(rs)}-no-operations")
+            else:
+                for m, o_ in enumerate(opl):
+                    if not isinstance(o_, str) or go_lower(o_) not in valid_ops:
+                        why.append(f"resource-{k}-of-{len(rs)}-operation-{m}-of-{len(opl)}-not-allowed")
+    elif kind == "org":
+        org = sub.get("organization") if "organization" in sub else go_member(sub, "organization")
+        if not isinstance(org, dict):
+            why.append("organization-missing")
+        else:
+            for f in ("name", "city"):
+                if not isinstance(org.get(f), str) or go_blank(org.get(f)):
+                    why.append(f"organization-{f}-blank")
+    return why
+
+
+def rfc3339_ms(x):
+    from datetime import datetime
+    if not isinstance(x, str):
+        return None
+    try:
+        return int(round(datetime.fromisoformat(x.replace("Z", "+00:00")).timestamp() * 1000))
+    except Exception:
+        return None
+
+
+def run_subject_legs(ctx, facts):
+    """third harness (vcr/credential, in-package): subject validators, presentation dates, DID-method filter, auto-correction"""
+    import base64
+    binary3 = ctx.go_test_binary(PKG3, HARNESS3, "c01v")
+    if binary3 is None:
+        ctx.oblige("harness3-builds", False, ctx.harness_error[-1500:])
+        return
+    env = {}
+    if ctx.replay:
+        env["VERIF_REPLAY"] = os.path.abspath(ctx.replay)
+    else:
+        env["VERIF_CORPUS"] = os.path.join(os.path.dirname(os.path.dirname(os.path.abspath(__file__))), "harness", "corpus", "C01v")
+    rc, log, out3 = ctx.run_harness(binary3, "TestVerifC01V", env, outdir=os.path.join(ctx.scratch, "out3"), timeout=600)
+    ctx.oblige("harness3-runs", rc == 0, log[-1200:])
+    if rc != 0:
+        return
+    ops_p, impl_p, model_p = (os.path.join(out3, x) for x in ("ops.jsonl", "impl.out", "model.out"))
+    ok, err = ctx.model("C01", ops_p, model_p)
+    ctx.oblige("model-driver-runs(subject legs)", ok, err[-500:])
+    impl, model, bad = ctx.compare(impl_p, model_p)
+    raw = ctx.read_lines(ops_p)
+    ops = [json.loads(l) if l else {} for l in raw[:len(impl)]]
+    valid_ops = None
+    try:
+        valid_ops = (facts or {}).get("validOperationTypes")
+    except Exception:
+        valid_ops = None
+    if not isinstance(valid_ops, list):
+        fj = os.path.join(os.path.dirname(os.path.dirname(os.path.abspath(__file__))), "facts", "C01.json")
+        try:
+            valid_ops = json.load(open(fj)).get("validOperationTypes")
+        except Exception:
+            valid_ops = None
+    # the property's reader's list (the documented FHIR interactions), NOT read from the source: a widened source list is a finding
+    documented_ops = ["read", "vread", "update", "patch", "delete", "history", "create", "search", "document"]
+    ctx.oblige("oracle:operation-allow-list-is-the-documented-one(facts)", valid_ops is None or sorted(valid_ops) == sorted(documented_ops), str(valid_ops))
+    seen = set()
+
+    def vio(sig, what, i):
+        if sig in seen:
+            return
+        seen.add(sig)
+        ctx.violation(sig, what, re.sub(r"[^A-Za-z0-9_.-]+", "_", sig)[:110] + ".jsonl", raw[i] + "\n")
+
+    n_bad = 0
+    kinds = Counter()
+    for i, op in enumerate(ops):
+        k, line = op.get("op"), impl[i]
+        kinds[k + ":" + line.split(" ")[0].split("=")[0]] += 1
+        if line.startswith("panic"):
+            n_bad += 1
+            vio(f"C01:{k}:panic", f"{op.get('label')}: the implementation panics", i)
+        if k == "validate" and op.get("doc"):
+            types = op["doc"].get("types") or []
+            first = next((t for t in types if t != "VerifiableCredential" and t in ("NutsOrganizationCredential", "NutsAuthorizationCredential")), None)
+            kind = {"NutsOrganizationCredential": "org", "NutsAuthorizationCredential": "auth"}.get(first)
+            if line == "ok" and kind:
+                why = subject_defects(op["text"], kind, documented_ops)
+                if why:
+                    n_bad += 1
+                    vio(f"C01:validator-accepts-malformed-subject:{kind}:" + re.sub(r"\d+", "N", why[0]),
+                        f"{op.get('label')}: a {first} is reported valid although: {', '.join(why)}", i)
+            if line != "ok" and op.get("label", "").endswith(":base"):
+                n_bad += 1
+                vio(f"C01:validator-rejects-wellformed:{kind}", f"{op.get('label')}: a well-formed {first} is rejected", i)
+        elif k == "pres-dates" and op.get("doc") and line.startswith("iss="):
+            m = re.match(r"iss=(\S+) exp=(\S+)$", line)
+            want_i = want_e = "nil"
+            if op["doc"].get("fmt") == "jwt_vp":
+                try:
+                    pl = json.loads(base64.urlsafe_b64decode(op["text"].split(".")[1] + "=="))
+                except Exception:
+                    pl = {}
+                zero = -62135596800
+
+                def claim(name):
+                    v = pl.get(name)
+                    if isinstance(v, str) and re.fullmatch(r"-?\d+(\.\d+)?", v):   # jwx accepts numeric strings
+                        v = float(v)
+                    return None if isinstance(v, bool) or not isinstance(v, (int, float)) or int(v) == zero else int(v) * 1000
+                want_i = claim("nbf") if claim("nbf") is not None else claim("iat")
+                want_e = claim("exp")
+            else:
+                pr = json.loads(op["text"]).get("proof")
+                pr = pr[0] if isinstance(pr, list) and len(pr) == 1 else pr
+                if isinstance(pr, dict) and any(f in pr and rfc3339_ms(pr[f]) is None for f in ("created", "expires")):
+                    want_i = want_e = None     # a date that does not parse: the proof does not decode, no date is reported
+                elif isinstance(pr, dict):
+                    want_i, want_e = rfc3339_ms(pr.get("created")), rfc3339_ms(pr.get("expires"))
+                    zero_ms = -62135596800000
+                    want_i = None if want_i == zero_ms else want_i
+                    want_e = None if want_e == zero_ms else want_e
+                else:
+                    want_i = want_e = None
+            got = (m.group(1), m.group(2)) if m else (None, None)
+            want = tuple("nil" if w is None or w == "nil" else str(w) for w in (want_i, want_e))
+            if got != want:
+                n_bad += 1
+                vio("C01:presentation-dates-are-not-the-signed-ones:" + op["doc"].get("fmt", "") + ":" + ("iss" if got[0] != want[0] else "exp"),
+                    f"{op.get('label')}: util.go reports {line}, the single proof / the token says iss={want[0]} exp={want[1]}", i)
+        elif k == "filter-method" and isinstance(op.get("creds"), list) and line.startswith("keep="):
+            kept = {int(x) for x in line[5:].split(",") if x}
+            methods = op.get("methods") or []
+            for n_, v in enumerate(op["creds"]):
+                should = True
+                if methods:
+                    should = (v.get("issuerMethod") is None or v["issuerMethod"] in methods) and v.get("subjects") is not None and \
+                        all(sid == "" or m_ is None or m_ in methods for sid, m_ in v["subjects"])
+                if should != (n_ in kept):
+                    n_bad += 1
+                    vio("C01:did-method-filter:" + ("offers-credential-of-unlisted-method" if n_ in kept else "drops-matching-credential"),
+                        f"{op.get('label')}: credential {n_} (issuer method {v.get('issuerMethod')}, subjects {v.get('subjects')}) with methods {methods}: kept={n_ in kept}", i)
+                    break
+        elif k == "autocorrect" and op.get("c") and line.startswith("proofs="):
+            c = op["c"]
+            if c.get("nProofs", 0) > 0:
+                want = f"proofs={c['nProofs']} id={c['id'] if c['id'] is not None else 'nil'} issuer={c['issuer']} issued={c['issued']} n={c['nSubjects']} has={'true' if c['subject0HasId'] else 'false'} s0={c['subject0Id'] if c['subject0Id'] is not None else 'nil'}"
+                if line != want:
+                    n_bad += 1
+                    vio("C01:autocorrect-alters-signed-credential", f"{op.get('label')}: a credential with a proof was altered: {line} (was {want})", i)
+            else:
+                if c.get("issuer") and f"issuer={c['issuer']} " not in line:
+                    n_bad += 1
+                    vio("C01:autocorrect-overwrites-issuer", f"{op.get('label')}: the present issuer {c['issuer']} was replaced: {line}", i)
+                if c.get("subject0HasId") and c.get("subject0Id") is not None and not line.endswith(" s0=" + c["subject0Id"]):
+                    n_bad += 1
+                    vio("C01:autocorrect-overwrites-subject-id", f"{op.get('label')}: the present subject id was replaced: {line}", i)
+    ctx.oblige("oracle:subject-validators/presentation-dates/method-filter/auto-correction(impl)", n_bad == 0 and (len(ops) > 0 or bool(ctx.replay)), f"{n_bad} wrong of {len(ops)}")
+    if bad:
+        i = bad[0]
+        detail = f"first differing line {i} ({ops[i].get('op') if i < len(ops) else None} {ops[i].get('label') if i < len(ops) else None})\nimpl : {impl[i] if i < len(impl) else None}\nmodel: {model[i] if i < len(model) else None}"
+        ctx.oblige("correspondence:model=impl(subject legs)", False, f"{len(bad)} of {len(impl)} lines differ; " + detail[:600])
+        if not ctx.violations:
+            sig = "C01:" + str(ops[i].get("op") if i < len(ops) else "?") + ":model-and-implementation-disagree"
+            ctx.violation(sig, "the implementation's outcome differs from the model of the unchanged source on this input:\n" + detail, "subject-leg-correspondence.jsonl", raw[i] + "\n")
+    else:
+        ctx.oblige("correspondence:model=impl(subject legs)", True, f"{len(impl)} lines equal")
+    ctx.cov["subject_leg_ops"] = len(ops)
+    ctx.cov["subject_leg_distribution"] = dict(kinds.most_common())
+    return len(ops)
+
+
 def run(ctx):
     ctx.level = "proof (decision logic) + conditional tamper-evidence; PARTIAL by construction on canonicalisation and cryptography (contracts)"
     facts = ctx.facts()
-    thms = ctx.build_and_audit(["NutsProofs.Props.C01"])
+    thms = ctx.build_and_audit(["NutsProofs.Props.C01", "NutsProofs.Props.C01Subject"])
     for r in REQUIRED:
         if not any(t.endswith("Props." + r) for t in thms):
             ctx.oblige("thm-present:" + r, False, "theorem missing or its module does not build")
@@ -156,6 +379,7 @@ def run(ctx):
                                       "network-ingest-" + re.sub(r"[^a-z0-9-]", "", hname) + ".jsonl", hist)
                 ctx.oblige("oracle:network-ingest(StoreCredential->Resolve/wallet)(impl)", wrong == 0 and len(ops2) > 0, f"{wrong} wrong of {len(ops2)} steps")
                 ctx.cov["network_ingest_steps"] = len(ops2)
+    n_subject_ops = run_subject_legs(ctx, facts) or 0
     ops_p, impl_p, model_p = (os.path.join(out, x) for x in ("ops.jsonl", "impl.out", "model.out"))
     ok, err = ctx.model("C01", ops_p, model_p)
     ctx.oblige("model-driver-runs", ok, err[-500:])
@@ -220,6 +444,20 @@ def run(ctx):
                               "mixed-vp-rejected.jsonl", replay_text(i))
     ctx.oblige("oracle:forged-credential-in-presentation-rejected-in-every-position(impl)", forged_accepted == 0 and (n_mix > 0 or bool(ctx.replay)),
                f"{forged_accepted} wrong verdicts of {n_mix} mixed presentations")
+
+    # wave 8: the signer must be the subject of EVERY credential a presentation carries (not of one of them): presentations of the
+    # holder's own credentials mixed with genuine credentials about somebody else, in every position / format / with and without holder
+    foreign_accepted = n_subj = 0
+    for i, op in enumerate(ops):
+        if op.get("op") == "vp" and op.get("label", "").startswith("vpmixsubj-"):
+            n_subj += 1
+            if op.get("mut") == "vp-mix-foreign-subject" and impl[i].startswith("ok"):
+                foreign_accepted += 1
+                ctx.violation("C01:presentation-carries-credential-of-another-subject:" + (op.get("doc") or {}).get("fmt", ""),
+                              f"{op['label']}: VerifyVP reports a presentation valid whose signer is not the subject of every credential it carries",
+                              "foreign-subject-in-vp.jsonl", replay_text(i))
+    ctx.oblige("oracle:signer-is-subject-of-EVERY-carried-credential(impl)", foreign_accepted == 0 and (n_subj > 0 or bool(ctx.replay)),
+               f"{foreign_accepted} accepted of {n_subj} mixed-subject presentations")
 
     # revocation is permanent from the verifier's point of view: once a verification of a document reported "revoked", every later
     # verification of the same document on that node reports revoked (refreshes of a status list must not resurrect it)
